@@ -25,6 +25,7 @@ func runC02(p *eng.Prog, r *eng.Report, tier string) {
 	c := &cx{p, r, tier}
 	callerSlicesNotRewritten(c, "C02.10", negSet(c, "C02.10"))
 	jidEqualRule(c, "C02.11")
+	jidAppendsFresh(c, "C02.12")
 	firstParam := ""
 	nf, call := negotiateSite(c, "C01.1")
 	if nf != nil {
